@@ -739,7 +739,7 @@ impl Session {
         value.handle is None ==> r is Err,
         value.handle is Some ==> r == Ok::<LinkFlow, ()>(LinkFlow {
             handle: value.handle->Some_0, delivery_count: value.delivery_count, link_credit: value.link_credit,
-            available: value.available, drain: value.drain, echo: value.echo, properties: value.properties }),
+            available: value.available, drain: value.drain, echo: value.echo, properties: value.properties }),     // [C08.flow.link-part-unchanged] [C09.flow.link-part-unchanged] the link part of a flow frame reaches the link as the peer sent it: an absent delivery-count stays absent (the sender then falls back to its initial delivery-count), credit, drain, echo and available unchanged
 //@@ end
 
 //@@ fn file=fe2o3-amqp/src/session/mod.rs impl=`impl Session` name=on_incoming_flow_inner
